@@ -211,11 +211,15 @@ func customTraceExportHandler(
 	// Get request info from GRPC metadata and prepare our custom wrapper.
 	ri := huskyotlp.GetRequestInfoFromGrpcMetadata(ctx)
 
-	// Handle SendKeyMode logic before validation, similar to HTTP handler
+	// Check the key the client sent before SendKeyMode replaces it, the same
+	// way the HTTP handlers do: AcceptOnlyListedKeys applies to the incoming key.
 	apicfg := traceServer.router.Config.GetAccessKeyConfig()
 	keyID := ""
 	if apicfg.HasKeyIDs() {
 		keyID = traceServer.router.getKeyID(ri.ApiKey)
+	}
+	if err := apicfg.IsAccepted(ri.ApiKey, keyID); err != nil {
+		return nil, status.Error(codes.Unauthenticated, err.Error())
 	}
 	keyToUse, err := apicfg.GetReplaceKey(ri.ApiKey, keyID)
 	if err != nil {
